@@ -70,6 +70,8 @@ def run(prog: Program, rep: Report, tier: str):
     rule_static(prog, rep)
     rule_closure(prog, rep)
     rule_effect(prog, rep, fns)
+    from .staticeq import rule_static_eq
+    rule_static_eq(prog, rep, "C14.static-eq", minimum=4)
     if tier == "thorough":
         from ..audit import audit_generic
         audit_generic(prog, rep, "C14")
